@@ -75,6 +75,15 @@ static void line_alloc(line_t *l, unsigned n, int guarded)
         memcpy(l->base + n + 2, CANARY + 2, 16);
         l->p = l->base + 2;
     }
+    else if (n == 0 && (vf.case_no & 1))
+    {
+        /* an empty side without storage at all: a_tf_init(ctx, n, num, in, 0, NULL, NULL) is how an FIR filter is set up when there is nothing to
+           allocate (the Lua binding does it), and a null line is the only value for which a null test inside the library takes its other branch
+           (seeded change C16-K: a_tf_zero returning early when EITHER line is null, so the non-empty line keeps its history) */
+        l->base = l->p = NULL;
+        VF_COUNT("tf-empty-side-with-null-storage");
+        return;
+    }
     else
     {
         l->base = (double *)malloc(n * sizeof(double)); /* n == 0: zero-size block, every access is a red zone */
@@ -103,13 +112,13 @@ typedef struct
 static void coef_alloc(coef_t *c, unsigned n, double const *v)
 {
     c->n = n;
-    c->c = (double *)malloc(n * sizeof(double));
+    c->c = (n == 0 && (vf.case_no & 1)) ? NULL : (double *)malloc(n * sizeof(double)); /* odd cases: an empty coefficient vector is a null pointer */
     c->saved = (double *)malloc((n + 1) * sizeof(double));
-    if (!c->c || !c->saved) { fprintf(stderr, "h_filter: out of memory\n"); exit(2); }
-    memcpy(c->c, v, n * sizeof(double));
+    if ((!c->c && n) || !c->saved) { fprintf(stderr, "h_filter: out of memory\n"); exit(2); }
+    if (n) { memcpy(c->c, v, n * sizeof(double)); }
     memcpy(c->saved, v, n * sizeof(double));
 }
-static int coef_intact(coef_t const *c) { return memcmp(c->c, c->saved, c->n * sizeof(double)) == 0; }
+static int coef_intact(coef_t const *c) { return !c->n || memcmp(c->c, c->saved, c->n * sizeof(double)) == 0; }
 static void coef_free(coef_t *c)
 {
     free(c->c);
